@@ -15,6 +15,7 @@ Line protocol of the C03 model.
   C03 jrange <col i|u> <values supplied as i|u> <lk> <lt> <lv> <uk> <ut> <uv> <values>   JSON numeric range: impl bits | spec bits | column type as predicted
   C03 ffrange <lk> <lv> <uk> <uv> <col min> <col max> <full 0|1>   scorer chosen by search_on_u64_ff: empty | all | range:st:en
   C03 jmerge <t:min:max,…>                 column type of the merged segment (i | u | f)
+  C03 wf <corpus>                         hypotheses `Seg.wf` and `DocsWf` of C03_search_eq_answer_concrete on this corpus
   C03 guard                               does BooleanWeight::scorer's single-clause branch honour msm (extracted)
   C03 slop <on|off> <slop> <l1/l2/…>      the two phrase-slop algorithms on adjusted position lists
   C03 i64 <u64 bits> / C03 f64 <u64 bits> order-preserving encodings (on bit patterns)
@@ -191,6 +192,10 @@ def handle : List String → String
     | some sc, some top, some c =>
       perQuery qs (fun q => showNatList (if top then searchIdsTop leafTree singleClauseGuard sc c q else searchIds leafTree singleClauseGuard sc c q))
     | _, _, _ => "bad-op"
+  | ["wf", c] =>
+    match parseCorpus c with
+    | some c => showBool (c.all (fun s => docsWfB s.docs && s.alive.length == s.docs.length))
+    | none => "bad-op"
   | "ok" :: qs => perQuery qs (fun q => showBool (okQ singleClauseGuard q))
   | ["guard"] => showBool singleClauseGuard
   | "count" :: c :: qs =>
